@@ -24,8 +24,8 @@ CONSTANTS Steps, MaxScript
 VARIABLES script, cset, ps
 INSTANCE Parser
 
-VARIABLES l, bad, cnt
-tvars == <<script, cset, ps, l, bad, cnt>>
+VARIABLES l, bad, cnt, self
+tvars == <<script, cset, ps, l, bad, cnt, self>>
 Reasons == {"parser-ne-packet", "decoded-not-truncated", "model-drift", "wrong-decoder-called", "incomplete-event", "panic", "hang"}
 
 Trace == ndJsonDeserialize("trace.ndjson")
@@ -73,17 +73,20 @@ Judge(e) ==
                   ELSE "ok"
 
 TInit == /\ script = <<>> /\ cset = {} /\ ps = PInit
-         /\ l = 1 /\ bad = <<>> /\ cnt = [x \in Reasons |-> 0]
+         /\ l = 1 /\ bad = <<>> /\ cnt = [x \in Reasons |-> 0] /\ self = <<>>
 
 Step == /\ l <= Len(Trace)
         /\ l' = l + 1
         /\ UNCHANGED <<script, cset, ps>>
         /\ LET e == Trace[l]
                r == Judge(e)
-           IN IF r = "ok" THEN UNCHANGED <<bad, cnt>>
+           IN IF e.sc < 0      \* binding self-test events appended by the check: reported apart, never counted
+              THEN self' = Append(self, [line |-> l, sc |-> e.sc, reason |-> r]) /\ UNCHANGED <<bad, cnt>>
+              ELSE IF r = "ok" THEN UNCHANGED <<bad, cnt, self>>
               ELSE /\ bad' = Note(bad, [sc |-> e.sc, line |-> l, op |-> e.op, reason |-> r])
                    /\ cnt' = IF r \in Reasons THEN [cnt EXCEPT ![r] = @ + 1] ELSE cnt
+                   /\ UNCHANGED self
 
 TSpec == TInit /\ [][Step]_tvars
-Done == l = Len(Trace) + 1 => PrintT("VERDICT " \o ToJson([lines |-> Len(Trace), bad |-> bad, cnt |-> cnt]))
+Done == l = Len(Trace) + 1 => PrintT("VERDICT " \o ToJson([lines |-> Len(Trace), bad |-> bad, cnt |-> cnt, self |-> self]))
 =============================================================================
